@@ -351,6 +351,22 @@ pub fn run(ctx: &mut Ctx) -> Report {
 		}
 		cases.push(Opts { country: Some(format!("A{}", c as char)), ..base.clone() });
 	}
+	// common names that look like host names or addresses, with and without alternative names
+	// given: the certificate carries exactly the given names, the common name is not one of them
+	for cn in ["db.internal.example", "a.b", "localhost", "10.0.0.1", "::1", "*.example.com", "host.example.com."] {
+		cases.push(Opts { cn: Some(cn.into()), ..base.clone() });
+		cases.push(Opts { cn: Some(cn.into()), san: vec!["other.example".into()], server: true, ..base.clone() });
+	}
+	// invalid values of every length class, with a multi-byte character at and around the offsets
+	// where diagnostics are commonly cut (32, 64, 128, 256): an error exit, never a panic
+	for cut in [32usize, 64, 128, 256] {
+		for shift in [0usize, 1, 2] {
+			let pre = "x".repeat(cut - shift.min(cut));
+			cases.push(Opts { country: Some(format!("{}\u{20ac}{}", pre, "y".repeat(8))), ..base.clone() });
+			cases.push(Opts { san: vec![format!("{}\u{e9}\u{1f600}{}.example", pre, "y".repeat(8))], ..base.clone() });
+			cases.push(Opts { san: vec!["ok.example".into(), format!("{}\u{e9}", pre)], country: Some(format!("{}*", pre)), ..base.clone() });
+		}
+	}
 	cases.push(Opts { cert: "leaf".into(), ca: "authority".into(), dir_exists: false, ..base.clone() });
 	cases.push(Opts { cert: "same".into(), ca: "same".into(), ..base.clone() });
 	// base names that differ but share an output file, and look-alikes that do not
